@@ -310,6 +310,14 @@ func (h *hxHook) onRec(phase, beh string, r record.Record) (record.Record, error
 	case 's':
 		n, _ := strconv.ParseInt(beh[1:], 10, 64)
 		return copyRec(r, n, ""), nil
+	case 'x': // hide: hand on a copy that is marked deleted
+		n, _, _ := data(r)
+		c := copyRec(r, n, "")
+		if c.Meta() == nil {
+			c.CreateMeta()
+		}
+		c.Meta().Deleted = 1000
+		return c, nil
 	}
 	return r, nil
 }
@@ -675,6 +683,12 @@ func (w *world) Do(line string) string {
 		}
 		return cfgPush(atomic.AddInt64(&dbCounter, 1), n)
 	}
+	if f[0] == "cfgops" { // NoModel: the real config StorageInterface behind the database interface
+		if len(f) < 2 || len(f) > 40 {
+			return "bad-op"
+		}
+		return cfgOps(atomic.AddInt64(&dbCounter, 1), f[1:])
+	}
 	if f[0] == "db" {
 		if len(f) != 3 || (f[2] != "0" && f[2] != "1") {
 			return "bad-op"
@@ -863,7 +877,7 @@ func (w *world) Do(line string) string {
 }
 
 func okBeh(b string, recPhase bool) bool {
-	if b == "-" || b == "p" {
+	if b == "-" || b == "p" || (recPhase && b == "x") {
 		return true
 	}
 	if len(b) < 2 {
